@@ -3,6 +3,7 @@ CONSTANTS
   MaxDepth = 2
   MaxDefects = 1
   Spares = {"none", "twin"}
+  Embeds = {"none"}
 INVARIANT NeverValid
 INVARIANT NeverInvalid
 INVARIANT NeverLoadError
